@@ -1889,3 +1889,166 @@ def block_string_steps(check: Check, repo: Repo, rule: str = "BLOCK-STEPS") -> N
         check.ob(rule, s, f"read_block_string: position += {k} at line {s.lineno}", ok,
                  "the facts here entail a unit of that length" if ok else
                  f"no {k}-character unit is established here (known: {sorted(t for t, p in facts if p and 'position' in t)[:4]})")
+
+
+class _BoolFold:
+    """Fold a straight-line block of boolean flag assignments over free atoms (every non-boolean sub-expression is
+    an atom identified by its text; a few atoms are linked by the arithmetic they express)."""
+
+    LINKS = {  # text -> (atom, polarity): different spellings of one fact about the same quantity
+        "num_lines == 1": ("num_lines == 1", True), "num_lines > 1": ("num_lines == 1", False),
+        "num_lines != 1": ("num_lines == 1", False), "num_lines >= 2": ("num_lines == 1", False),
+        "len(lines) == 1": ("num_lines == 1", True), "len(lines) > 1": ("num_lines == 1", False),
+        "len(value) > 70": ("len(value) > 70", True), "len(value) <= 70": ("len(value) > 70", False),
+        "len(value) >= 71": ("len(value) > 70", True), "len(value) < 71": ("len(value) > 70", False),
+    }
+
+    def __init__(self) -> None:
+        self.atoms: list[str] = []
+        self.discover = False
+
+    def atom(self, text: str, val: dict[str, bool]):
+        a, pol = self.LINKS.get(text, (text, True))
+        if a not in self.atoms:
+            self.atoms.append(a)
+        return val.get(a, False) == pol
+
+    def ev(self, e: ast.AST, env: dict, val: dict[str, bool]):
+        if isinstance(e, ast.Constant):
+            return e.value
+        if isinstance(e, ast.Name):
+            return env[e.id] if e.id in env else self.atom(e.id, val)
+        if isinstance(e, ast.UnaryOp) and isinstance(e.op, ast.Not):
+            return not self.ev(e.operand, env, val)
+        if isinstance(e, ast.BoolOp):
+            r = None
+            if self.discover:
+                for v in e.values:
+                    self.ev(v, env, val)
+            for v in e.values:
+                r = self.ev(v, env, val)
+                if isinstance(e.op, ast.And) and not r:
+                    return r
+                if isinstance(e.op, ast.Or) and r:
+                    return r
+            return r
+        if isinstance(e, ast.IfExp):
+            if self.discover:
+                self.ev(e.body, env, val), self.ev(e.orelse, env, val)
+            return self.ev(e.body if self.ev(e.test, env, val) else e.orelse, env, val)
+        return self.atom(unparse(e), val)
+
+
+def block_print_table(check: Check, repo: Repo, rule: str = "BLOCK-PRINT-TABLE") -> None:
+    check.rule(
+        rule,
+        "print_block_string: the flag computation is folded over all valuations of its atomic facts (single line?, "
+        "starts with blank?, longer than 70?, trailing quote/backslash?, minimize? ... - spellings of one arithmetic fact "
+        "are linked, nothing is run) and three cells are required: (1) a single-line value that starts with a space or "
+        "tab never gets a leading line break - the parser would take its leading blank for common indentation and strip "
+        "it; (2) a forced leading line break is written; (3) a forced trailing line break is written",
+    )
+    fn = repo.func("language.block_string", "print_block_string")
+    names = {t.id for s in walk_body(fn) if isinstance(s, ast.Assign) for t in s.targets if isinstance(t, ast.Name)}
+    if not {"before", "after"} <= names:
+        raise AnalysisError("print_block_string: `before` / `after` not found")
+    opaque = {"escaped_value", "lines", "num_lines", "value"}
+    fold = _BoolFold()
+
+    def block(stmts: list[ast.stmt], env: dict, val: dict[str, bool]) -> None:
+        for s in stmts:
+            if isinstance(s, ast.Assign) and len(s.targets) == 1 and isinstance(s.targets[0], ast.Name):
+                if s.targets[0].id not in opaque:
+                    env[s.targets[0].id] = fold.ev(s.value, env, val)
+            elif isinstance(s, ast.If) and not any(isinstance(x, (ast.Return, ast.Raise)) for x in ast.walk(s)) \
+                    and not any(isinstance(x, ast.Assign) and any(isinstance(t, ast.Name) and t.id in opaque for t in x.targets) for x in ast.walk(s)):
+                if fold.discover:
+                    fold.ev(s.test, env, val)
+                    block(s.body, env, val)
+                    block(s.orelse, env, val)
+                block(s.body if fold.ev(s.test, env, val) else s.orelse, env, val)
+
+    def run(val: dict[str, bool]) -> dict:
+        env: dict = {}
+        block(fn.body, env, val)
+        return env
+
+    fold.discover = True
+    run({})  # discover the atoms
+    fold.discover = False
+    atoms = list(fold.atoms)
+    if len(atoms) > 14:
+        raise AnalysisError(f"print_block_string: {len(atoms)} atoms - the flag computation is no longer a small table")
+    bad = []
+    import itertools as _it
+
+    blank = [a for a in atoms if "value[0]" in a or "startswith" in a]
+    for bits in _it.product((False, True), repeat=len(atoms)):
+        val = dict(zip(atoms, bits))
+        env = run(val)
+        single = val.get("num_lines == 1", False)
+        starts_blank = val.get("value", False) and all(val[a] for a in blank) and bool(blank)
+        forced_lead = bool(env.get("force_leading_new_line"))
+        if single and forced_lead:
+            continue  # infeasible: the forced leading break needs a second line
+        where = ", ".join(a for a in atoms if val[a]) or "nothing holds"
+        if single and starts_blank and env["before"] != "":
+            bad.append(f"(1) single line starting with a blank gets a leading line break when: {where}")
+        if forced_lead and env["before"] != "\n":
+            bad.append(f"(2) forced leading line break not written when: {where}")
+        if env.get("force_trailing_new_line") and env["after"] != "\n":
+            bad.append(f"(3) forced trailing line break not written when: {where}")
+    check.ob(rule, fn, f"print_block_string: {2 ** len(atoms)} valuations of {len(atoms)} atoms", not bad,
+             f"atoms: {atoms}" if not bad else bad[0] + (f" (+{len(bad) - 1} more cells)" if len(bad) > 1 else ""))
+
+
+def list_separators(check: Check, repo: Repo, rule: str = "LIST-SEPARATORS") -> None:
+    check.rule(
+        rule,
+        "every `join(node.<field>, <separator>)` of the printer writes between the elements of a list field exactly what "
+        "the parser needs there: for a field the parser reads with delimited_many(TokenKind.X, ...) (the interfaces of a "
+        "type: &, union members and directive locations: |; field found by following `name = self.parse_...()` into the "
+        "node constructor's keyword) the separator is that punctuator surrounded by ignored characters; for every other "
+        "list field it consists of ignored characters only (blank, comma, line break). `implements A, B` is the pre-2018 "
+        "syntax: the parser stops at B",
+    )
+    pm = repo.mod("language.parser")
+    tk = repo.mod("language.token_kind")
+    values = {t.id: s.value.value for c in tk.classes() if c.name == "TokenKind" for s in c.body
+              if isinstance(s, ast.Assign) and isinstance(s.value, ast.Constant) for t in s.targets if isinstance(t, ast.Name)}
+    delim_of_method: dict[str, str] = {}
+    for f in pm.functions():
+        for c in walk_body(f):
+            if isinstance(c, ast.Call) and call_name(c).split(".")[-1] == "delimited_many" and c.args and isinstance(c.args[0], ast.Attribute):
+                delim_of_method[f.name] = values.get(c.args[0].attr, "?")
+    field_delim: dict[str, str] = {}
+    for f in pm.functions():
+        local: dict[str, str] = {}
+        for s in walk_body(f):
+            if isinstance(s, ast.Assign) and isinstance(s.value, ast.Call) and call_name(s.value).split(".")[-1] in delim_of_method:
+                for t in s.targets:
+                    if isinstance(t, ast.Name):
+                        local[t.id] = delim_of_method[call_name(s.value).split(".")[-1]]
+        for c in walk_body(f):
+            if isinstance(c, ast.Call):
+                for kw in c.keywords:
+                    if kw.arg and isinstance(kw.value, ast.Name) and kw.value.id in local:
+                        field_delim[kw.arg] = local[kw.value.id]
+                    elif kw.arg and isinstance(kw.value, ast.Call) and call_name(kw.value).split(".")[-1] in delim_of_method:
+                        field_delim[kw.arg] = delim_of_method[call_name(kw.value).split(".")[-1]]
+    if len(field_delim) < 3:
+        raise AnalysisError(f"LIST-SEPARATORS: delimited list fields of the parser not found ({field_delim})")
+    pr = repo.mod("language.printer")
+    n = 0
+    for c in ast.walk(pr.tree):
+        if not (isinstance(c, ast.Call) and call_name(c) == "join" and len(c.args) == 2 and isinstance(c.args[0], ast.Attribute)
+                and isinstance(c.args[0].value, ast.Name) and c.args[0].value.id == "node" and isinstance(c.args[1], ast.Constant)):
+            continue
+        field, sep = c.args[0].attr, str(c.args[1].value)
+        core = "".join(ch for ch in sep if ch not in " ,\n\t")
+        want = field_delim.get(field, "")
+        n += 1
+        check.ob(rule, c, f"{qualname_of(c)}: join(node.{field}, {sep!r})", core == want,
+                 (f"parser delimiter {want!r}" if want else "ignored characters only") if core == want else
+                 (f"the parser reads `{field}` with delimiter {want!r}, the printer writes {sep!r}" if want else f"{sep!r} contains the token(s) {core!r} the parser does not expect between `{field}`"))
+    check.floor(rule, 30, "join(node.<field>, <constant>) sites of the printer")
